@@ -225,6 +225,57 @@ func c07Run(c *core.Ctx, idx int) {
 			return
 		}
 	}
+	if idx%3 == 0 {
+		// second phase: the live structure is changed through retained handles (expressions re-assigned from Stack to plain
+		// value and back, left-over errors set on Conditions and Stacks) and every short path is compared again - the
+		// reference descends the live structure, so anything Traverse remembers from before shows
+		changed := 0
+		var visit func(s stackage.Stack, d int)
+		visit = func(s stackage.Stack, d int) {
+			if d > 6 {
+				return
+			}
+			if r.Chance(1, 6) && !s.IsReadOnly() {
+				s.SetErr(errPolicyRejects)
+				changed++
+			}
+			for i := 0; i < s.Len(); i++ {
+				v, _ := s.Index(i)
+				if ns, ok := AsStack(v); ok && ns.IsInit() {
+					visit(ns, d+1)
+				} else if cd, ok := AsCond(v); ok && cd.IsInit() {
+					ex := cd.Expression()
+					es, isS := AsStack(ex)
+					switch r.Intn(4) {
+					case 0:
+						if isS {
+							cd.SetExpression("plain value now")
+							changed++
+						}
+					case 1:
+						if !isS {
+							cd.SetExpression(stackage.Or().Push("late-a", "late-b"))
+							changed++
+						}
+					case 2:
+						cd.SetErr(errPolicyRejects)
+						changed++
+					}
+					if isS && es.IsInit() {
+						visit(es, d+1)
+					}
+				}
+			}
+		}
+		visit(root, 0)
+		if changed > 0 {
+			c.Count("trees.second-phase-after-live-changes")
+			path = path[:0]
+			if !rec(full) {
+				return
+			}
+		}
+	}
 	c.Count("trees")
 	if c.WantSample() && idx%311 == 1 {
 		v, ok := root.Traverse(0, 0)
@@ -242,7 +293,7 @@ func init() {
 			"non-trivial = the reference fails at step j while a later index, applied to that same level, addresses something descendable (the sibling-substitution shape); distinct = (tree, path).",
 		Assumptions: []string{"'exactly the value' is read strictly: the dynamic type and identity of the result must equal what Index yields (an alias stays an alias)"},
 		Floors: func(tier string) map[string]int64 {
-			return map[string]int64{"paths.sibling-substitution-shape": 1000, "paths.succeeding": 10000}
+			return map[string]int64{"paths.sibling-substitution-shape": 1000, "paths.succeeding": 10000, "trees.second-phase-after-live-changes": 1000}
 		},
 	})
 }
